@@ -1,5 +1,165 @@
-//! (to be written)
-pub fn cmd(_args: &crate::Args) {
-    eprintln!("fault: not implemented yet");
-    std::process::exit(2);
+//! I/O fault injection during recovery (C11): for a closed image, every read-side call made by
+//! `open` (directory listing, file opens, block reads, the writer's seek) is made to fail, once or
+//! persistently, with several error kinds; `open` must terminate promptly with an I/O error.
+use std::collections::BTreeMap;
+use std::path::PathBuf;
+use std::sync::Arc;
+use std::time::Duration;
+
+use mrecordlog::verif::{self, FaultPlan, FaultSite};
+use serde_json::{json, Value};
+
+use crate::crash::{assemble, with_deadline};
+use crate::disk::{FileImg, Image};
+use crate::exec::{open_log, run_script, TempDir};
+use crate::{load_scripts, parallel, write_lines, Args, Output};
+
+const SITES: [(FaultSite, &str); 4] = [
+    (FaultSite::ListDir, "list"),
+    (FaultSite::OpenFile, "open"),
+    (FaultSite::ReadBlock, "read"),
+    (FaultSite::Seek, "seek"),
+];
+
+const KINDS: [(std::io::ErrorKind, &str); 4] = [
+    (std::io::ErrorKind::PermissionDenied, "PermissionDenied"),
+    (std::io::ErrorKind::Other, "Other"),
+    (std::io::ErrorKind::Interrupted, "Interrupted"),
+    (std::io::ErrorKind::TimedOut, "TimedOut"),
+];
+
+struct Outcome {
+    out: String,
+    errkind: String,
+    struck: usize,
+    counts: [usize; 4],
+    queues: i64,
+}
+
+fn open_with_plan(
+    policy: &str,
+    files: &BTreeMap<u64, FileImg>,
+    plan: Option<FaultPlan>,
+    deadline: Duration,
+) -> Outcome {
+    let files_in = files.clone();
+    let policy_in = policy.to_string();
+    let result = with_deadline(deadline, move || {
+        let dir = TempDir::new();
+        Image::materialize(&files_in, &dir.path);
+        verif::stop_recording();
+        verif::set_fault_plan(plan);
+        let opened = open_log(&dir.path, &policy_in);
+        let (counts, struck) = verif::fault_counters();
+        verif::set_fault_plan(None);
+        match opened {
+            Ok(log) => Outcome {
+                out: "ok".to_string(),
+                errkind: String::new(),
+                struck,
+                counts,
+                queues: log.list_queues().count() as i64,
+            },
+            Err(err) => Outcome {
+                out: if err == "panic" { "panic".to_string() } else { "err".to_string() },
+                errkind: if err.starts_with("io:") {
+                    "io".to_string()
+                } else if err == "corruption" {
+                    "corruption".to_string()
+                } else {
+                    String::new()
+                },
+                struck,
+                counts,
+                queues: -1,
+            },
+        }
+    });
+    result.unwrap_or(Outcome {
+        out: "timeout".to_string(),
+        errkind: String::new(),
+        struck: 1,
+        counts: [0; 4],
+        queues: -1,
+    })
+}
+
+pub fn cmd(args: &Args) {
+    let scripts = Arc::new(load_scripts(args));
+    let out_dir = PathBuf::from(args.get("out", "/dev/shm/mrl-out"));
+    let output = Arc::new(Output::new(&out_dir));
+    let deadline = Duration::from_secs(args.num("deadline", 10));
+    let all_kinds = args.flag("all-kinds");
+    let n = scripts.len();
+    let output_in = output.clone();
+    parallel(n, args.num("jobs", 8) as usize, &out_dir, "trace", move |job, file| {
+        let script = &scripts[job];
+        std::fs::write(
+            output_in.dir.join("scripts").join(format!("{}.json", script.name)),
+            serde_json::to_vec(script).unwrap(),
+        )
+        .unwrap();
+        let (record, mut runner) = run_script(script, job);
+        drop(runner.log.take());
+        let image = Image::from_dir(&runner.dir.path);
+        drop(runner);
+        output_in.add("runs", 1);
+        output_in.add("calls", record.steps.len() as u64);
+        let mut lines = assemble(&record, Vec::new());
+        if record.aborted {
+            write_lines(file, &lines);
+            return;
+        }
+        // fault-free run: how many calls does recovery make at each site
+        let baseline = open_with_plan(&script.policy, &image.files, None, deadline);
+        output_in.add("images", 1);
+        output_in.add("image_files", image.files.len() as u64);
+        let mut cases: Vec<Value> = Vec::new();
+        let mut stop = false;
+        for (site_idx, (site, site_name)) in SITES.iter().enumerate() {
+            for k in 0..baseline.counts[site_idx] {
+                for forever in [false, true] {
+                    let kinds: Vec<&(std::io::ErrorKind, &str)> = if all_kinds {
+                        KINDS.iter().collect()
+                    } else {
+                        vec![&KINDS[(k + site_idx + forever as usize) % KINDS.len()]]
+                    };
+                    for (kind, kind_name) in kinds {
+                        if stop {
+                            continue;
+                        }
+                        let plan = FaultPlan {
+                            site: *site,
+                            k,
+                            forever,
+                            kind: *kind,
+                        };
+                        let outcome = open_with_plan(&script.policy, &image.files, Some(plan), deadline);
+                        output_in.add("fault_cases", 1);
+                        output_in.add(&format!("fault_site_{site_name}"), 1);
+                        if outcome.struck > 0 {
+                            output_in.add("fault_struck", 1);
+                        }
+                        if outcome.out == "timeout" {
+                            stop = true;
+                        }
+                        cases.push(json!({
+                            "ev": "fault", "site": site_name, "k": k, "forever": forever as i64,
+                            "kind": kind_name, "struck": outcome.struck, "out": outcome.out,
+                            "errkind": outcome.errkind, "queues": outcome.queues,
+                            "base": baseline.counts.to_vec(), "files": image.files.len(),
+                        }));
+                    }
+                }
+            }
+        }
+        output_in.sample(json!({"script": script.name, "files": image.files.len(),
+            "calls_per_site(list,open,read,seek)": baseline.counts.to_vec(), "cases": cases.len(),
+            "first": cases.first()}));
+        lines.extend(cases);
+        output_in.add("trace_lines", lines.len() as u64);
+        write_lines(file, &lines);
+    });
+    output.finish(json!({"cmd": "fault"}));
+    crate::exec::cleanup_scratch();
 }
